@@ -43,7 +43,34 @@ func famAPIConc(w *World) {
 		}), "m")
 		hps = append(hps, n.HostPort)
 	}
-	cli := w.addNode(NodeOpts{Name: "c0", Service: "client0", Host: "10.0.3.1", Conn: w.connOptsBig()})
+	cli := w.addNode(NodeOpts{Name: "c0", Service: "client0", Host: "10.0.3.1", Port: 3000, Conn: w.connOptsBig()})
+	registered := map[string]bool{} // "service method" pairs whose Register has returned
+	var srvNodes []*Node
+	for _, n := range w.Nodes {
+		if n != cli {
+			srvNodes = append(srvNodes, n)
+		}
+	}
+	// callOther: a peer calls a handler registered on one of the client's sub-channels
+	callOther := func(from *Node, svc, method string) (string, error) {
+		ctx, cancel := tchannel.NewContextBuilder(3 * time.Second).Build()
+		defer cancel()
+		call, err := from.Ch.BeginCall(ctx, cli.HostPort, svc, method, nil)
+		if err != nil {
+			return "", err
+		}
+		if err = writeArg(call.Arg2Writer())(nil, 0); err == nil {
+			err = writeArg(call.Arg3Writer())(nil, 0)
+		}
+		var r3 []byte
+		if err == nil {
+			_, err = readArg(call.Response().Arg2Reader())(0, 0)
+		}
+		if err == nil {
+			r3, err = readArg(call.Response().Arg3Reader())(0, 0)
+		}
+		return string(r3), err
+	}
 	sc := cli.Ch.GetSubChannel("svc")
 	for _, hp := range hps {
 		sc.Peers().Add(hp)
@@ -64,7 +91,7 @@ func famAPIConc(w *World) {
 		}
 		var ops []op
 		for i := 0; i < nops; i++ {
-			o := op{kind: scnPick(0, 0, 0, 1, 2, 3, 4, 5, 6, 7, 8), k: scn(16)}
+			o := op{kind: scnPick(0, 0, 0, 1, 2, 3, 4, 5, 6, 7, 7, 8, 9), k: scn(16)}
 			if o.kind == 0 {
 				ncall++
 				o.tag = fmt.Sprintf("%c%d", "BN"[scn(2)], ncall)
@@ -134,9 +161,25 @@ func famAPIConc(w *World) {
 					cli.Ch.IntrospectState(&tchannel.IntrospectionOptions{IncludeExchanges: true, IncludeEmptyPeers: true})
 					_ = cli.Ch.State()
 				case 7:
-					x := cli.Ch.GetSubChannel(fmt.Sprintf("other%d", o.k%3))
-					x.Register(tchannel.HandlerFunc(func(ctx context.Context, call *tchannel.InboundCall) {}), fmt.Sprintf("h%d", o.k))
+					// a new sub-channel may be created by several goroutines at once (and by an
+					// inbound call for that very service): whatever was registered must be served
+					svc, method := fmt.Sprintf("other%d", o.k%3), fmt.Sprintf("h%d", o.k)
+					x := cli.Ch.GetSubChannel(svc)
+					x.Register(tchannel.HandlerFunc(func(ctx context.Context, call *tchannel.InboundCall) {
+						readArg(call.Arg2Reader())(0, 0)
+						readArg(call.Arg3Reader())(0, 0)
+						resp := call.Response()
+						writeArg(resp.Arg2Writer())(nil, 0)
+						writeArg(resp.Arg3Writer())([]byte(svc+"/"+method), 0)
+					}), method)
+					registered[svc+" "+method] = true
 					x.Peers().Add(hps[o.k%len(hps)])
+					if y := cli.Ch.GetSubChannel(svc); y != x {
+						w.violate("C04", "sub-channel-replaced", "GetSubChannel(%q) returned another object than a moment ago: what was registered on the first one is lost", svc)
+					}
+				case 9:
+					// an inbound call for a sub-channel that may be just coming into being
+					callOther(srvNodes[o.k%len(srvNodes)], fmt.Sprintf("other%d", o.k%3), fmt.Sprintf("h%d", o.k))
 				case 8:
 					ctx, cancel := context.WithTimeout(context.Background(), time.Second)
 					cli.Ch.Connect(ctx, hps[o.k%len(hps)])
@@ -147,5 +190,15 @@ func famAPIConc(w *World) {
 		})
 	}
 	w.tasks(fs...)
+	// every handler whose registration returned is served
+	for _, key := range sortedKeys(registered) {
+		var svc, method string
+		fmt.Sscanf(key, "%s %s", &svc, &method)
+		w.eval("C04.registered-handler-served")
+		got, err := callOther(srvNodes[0], svc, method)
+		if err != nil || got != svc+"/"+method {
+			w.violate("C04", "registered-handler-not-served", "handler %s::%s was registered (Register returned) while other goroutines used the channel; a later call to it gives %q, %s", svc, method, got, errStr(err))
+		}
+	}
 	w.quiesce(6*time.Second, true)
 }
